@@ -605,7 +605,7 @@ func runSweep(w *World) *sweepResult {
 				}
 			}()
 			mode := "safety"
-			if fi.Contract != nil && len(fi.Contract.Props) > 0 && !fi.Contract.Trusted {
+			if fi.Contract != nil && len(fi.Contract.Props) > 0 && !fi.Contract.Trusted && !fi.Contract.NoSafety {
 				mode = "full" // functions under a full contract: their loop invariants discharge the safety sites
 			}
 			res = genFunc(w, fi, mode)
